@@ -149,11 +149,23 @@ def gen_waits():
     b = find_fn(bodies, r"StreamWait for NCReadStream<T>$", "wait")
     # the guard returned by wait_timeout_while is bound to a name; while that binding is live
     # (not dropped, same block) the liveness read happens under the lock: one atomic observation
-    g = re.search(r"let\s+(\w+)\s*=\s*\w+\s*\.wait_timeout_while", b)
+    # (`let l = …` or a tuple pattern `let (queue, _timeout) = …`: the guard is the first component)
+    g = re.search(r"let\s+(?:mut\s+)?(?:\(\s*)?(?:mut\s+)?(\w+)[^=;]*=\s*\w+\s*\.wait_timeout_while", b)
     order = order_of(b, ALIVE, [r"wait_timeout_while"])
-    if g and order == ["avail", "alive"] and not re.search(r"drop\(\s*%s\s*\)" % g.group(1), b) \
-            and re.search(r"\b%s\b[^;]*strong_count" % g.group(1), b):
-        order = ["both"]
+    if g and order == ["avail", "alive"] and g.group(1) != "_":
+        alive_at = min(m.start() for p in ALIVE for m in re.finditer(p, b))
+        between = b[g.start():alive_at]
+        # the block that holds the binding is still open at the liveness read, and the guard was not dropped
+        depth, closed = 0, False
+        for ch in between:
+            if ch == "{":
+                depth += 1
+            elif ch == "}":
+                depth -= 1
+                if depth < 0:
+                    closed = True
+        if not closed and not re.search(r"drop\(\s*%s\s*\)" % g.group(1), between):
+            order = ["both"]
     progs["ncReadWait"] = order
     b = find_fn(bodies, r"StreamWait for NCWriteStream<T>$", "wait")
     progs["ncWriteWait"] = order_of(b, ALIVE, [r"\.lock\(\)", r"\.len\("])
@@ -299,7 +311,7 @@ def gen_e2e():
            "namespace RR.Gen", ""]
     for fname, lname in [("ax25-1200-rx.rs", "rx1200"), ("ax25-9600-rx.rs", "rx9600")]:
         src = strip_rust(open(os.path.join(REPO, "examples", fname)).read())
-        main = find_fn_free(src, "main")
+        main = inline_helpers(src, find_fn_free(src, "main"))
         names = ["Hilbert", "QuadratureDemod", "FastFM", "FftFilterFloat", "FftFilter", "FirFilter", "RationalResampler",
                  "add_const", "AddConst", "SymbolSync", "ZeroCrossing", "BinarySlicer", "NrziDecode", "Descrambler",
                  "HdlcDeframer", "Il2pDeframer"]
@@ -339,6 +351,28 @@ def gen_e2e():
             out.append(f"def {lname}HilbertTaps : Nat := {m.group(1)}")
     out += ["", "end RR.Gen", ""]
     return "E2e.lean", "\n".join(out)
+
+
+def inline_helpers(src, body, rounds=3):
+    """Textually inline the file's own free functions where `body` calls them (blocks may be added to the graph in
+    private helpers): the helper's body is put in front of the call, in evaluation order."""
+    fns = {n: b[0] for n, b in all_fn_bodies(src).items() if len(b) == 1 and n != "main"}
+    for _ in range(rounds):
+        changed = False
+        for name, fb in fns.items():
+            pat = re.compile(r"(?<![A-Za-z0-9_:.!])%s\s*\(" % re.escape(name))
+            pos = 0
+            while True:
+                m = pat.search(body, pos)
+                if not m:
+                    break
+                ins = fb + " "
+                body = body[:m.start()] + ins + name + "__inlined(" + body[m.end():]
+                pos = m.start() + len(ins) + len(name) + len("__inlined(")
+                changed = True
+        if not changed:
+            break
+    return body
 
 
 def find_fn_free(src, name):
